@@ -203,7 +203,7 @@ func (p *Protocol) ReadRequest(
 
 	// If we fail to read two bytes, the only possible valid value is the
 	// empty struct.
-	if count, _ := r.Read(buf[0:2]); count < 2 {
+	if count, _ := io.ReadFull(r, buf[0:2]); count < 2 {
 		sr := p.Reader(bytes.NewReader(buf[:count]))
 		defer sr.Close()
 		return NoEnvelopeResponder, body.Decode(sr)
